@@ -39,7 +39,7 @@ CHECKS = {
         'technique': 'Hypothesis structured generation vs select-then-fold reference model',
     },
     'C13': {
-        'text': 'Hypothesis nests of IF/IFS/IFERROR up to depth 3, bare and embedded in operators/functions, evaluated under every truth assignment (true/zero/blank/5) of their condition cells through overrides and compared with a lazy reference evaluator (untaken failing branches and conditions must not surface; failures of every kind: division by zero, error-valued cell, cell whose own formula raises, date function of a text, ranges of different sizes, lookup outside the table, text that is no number; #-texts that are no error values)',
+        'text': 'Hypothesis nests of IF/IFS/IFERROR up to depth 5, bare and embedded in operators/functions, evaluated under every truth assignment (true/zero/blank/5) of their condition cells through overrides and compared with a lazy reference evaluator (untaken failing branches and conditions must not surface; failures of every kind: division by zero, error-valued cell, cell whose own formula raises, date function of a text, ranges of different sizes, lookup outside the table, text that is no number; #-texts that are no error values)',
         'note': 'trusted: vf/ref/formula.py lazy semantics; how error values travel through other operators is not asserted',
         'technique': 'Hypothesis ASTs x exhaustive truth assignments vs lazy reference evaluator',
     },
